@@ -767,6 +767,17 @@ func c17Configured(c *rt.Ctx) {
 				b := d.String()
 				err := d.UnmarshalText(in)
 				check("date", "Date.UnmarshalText", b, d.String(), err)
+				// Scan of the same content as string and as bytes: identical outcome, whatever Parser is configured
+				ds, db := date.New(1999, 9, 9), date.New(1999, 9, 9)
+				for _, txt := range []string{"2002-08-07", "2002-08-07  ", " 2002-08-07", "x", ""} {
+					ds, db = date.New(1999, 9, 9), date.New(1999, 9, 9)
+					es, eb := ds.Scan(txt), db.Scan([]byte(txt))
+					w.Eval(2)
+					if (es == nil) != (eb == nil) || ds != db || (es != nil && eb != nil && es.Error() != strings.Replace(eb.Error(), "[]uint8", "string", 1) && es.Error() != eb.Error()) {
+						w.Fail("string-and-bytes-disagree-under-configured-parser-date", "confparser", rt.Args("type", "date", "op", "Date.Scan", "mode", mode, "input", txt), fmt.Sprint(ds, " ", es, " / ", db, " ", eb), "identical values and errors", "Scan of a string and of the same bytes must agree")
+					}
+					check("date", "Date.Scan(string)", "1999-09-09", map[bool]string{true: "1999-09-09", false: ds.String()}[es == nil], es)
+				}
 				n := roman.Number(14)
 				err = n.UnmarshalText(in)
 				check("roman", "Number.UnmarshalText", "14", fmt.Sprint(uint64(n)), err)
